@@ -1929,3 +1929,22 @@ mod tests {
 }
 
 
+
+/// Read-only accessors for the private attack tables (verification hook, not part of the API)
+#[cfg(inkayaku_verif)]
+pub mod verif {
+    use crate::board::precalculated::{BISHOP_MAGICS, BLACK_PAWN_NONMAGICS, KING_NONMAGICS, KNIGHT_NONMAGICS, ROOK_MAGICS, UnsafeMagicsExt, UnsafeNonmagicsExt, WHITE_PAWN_NONMAGICS};
+
+    pub fn rook_attacks(square: u32, occupancy: u64) -> u64 { ROOK_MAGICS.get_attacks(square, occupancy) }
+    pub fn bishop_attacks(square: u32, occupancy: u64) -> u64 { BISHOP_MAGICS.get_attacks(square, occupancy) }
+    pub fn rook_mask(square: u32) -> u64 { ROOK_MAGICS[square as usize].verif_mask() }
+    pub fn bishop_mask(square: u32) -> u64 { BISHOP_MAGICS[square as usize].verif_mask() }
+    pub fn rook_table_len(square: u32) -> usize { ROOK_MAGICS[square as usize].verif_table_len() }
+    pub fn bishop_table_len(square: u32) -> usize { BISHOP_MAGICS[square as usize].verif_table_len() }
+    pub fn rook_index(square: u32, occupancy: u64) -> usize { ROOK_MAGICS[square as usize].verif_index(occupancy) }
+    pub fn bishop_index(square: u32, occupancy: u64) -> usize { BISHOP_MAGICS[square as usize].verif_index(occupancy) }
+    pub fn king_attacks(square: u32) -> u64 { assert!(square < 64); unsafe { KING_NONMAGICS.get_attacks(square) } }
+    pub fn knight_attacks(square: u32) -> u64 { assert!(square < 64); unsafe { KNIGHT_NONMAGICS.get_attacks(square) } }
+    pub fn white_pawn_attacks(square: u32) -> u64 { assert!(square < 64); unsafe { WHITE_PAWN_NONMAGICS.get_attacks(square) } }
+    pub fn black_pawn_attacks(square: u32) -> u64 { assert!(square < 64); unsafe { BLACK_PAWN_NONMAGICS.get_attacks(square) } }
+}
